@@ -204,6 +204,8 @@ pub struct IinOracle {
     bcast_known: bool,
     /// (unsolicited?, seq) of responses that carried a confirm-mandatory broadcast indication
     bcast_reported_in: Vec<(bool, u8)>,
+    /// the outstation is waiting for the confirmation of an unsolicited response (between its own callbacks entering and leaving the wait)
+    in_unsol_wait: bool,
     app_bits: u8,
     desync: bool,
     /// the previous request reached the outstation on the current connection (a Repeat is then a retransmission)
@@ -229,6 +231,7 @@ impl IinOracle {
             bcast: None,
             bcast_known: true,
             bcast_reported_in: Vec::new(),
+            in_unsol_wait: false,
             app_bits: 0,
             desync: false,
             echo_possible: false,
@@ -262,6 +265,7 @@ impl Oracle for IinOracle {
         if step.connected || step.disconnected {
             self.sol = None;
             self.unsol = None;
+            self.in_unsol_wait = false;
             self.echo_possible = false;
             if (step.disconnected || (step.connected && step.link_up)) && self.bcast.is_some() {
                 // a session that is being cut or pre-empted may still have formatted a response (consuming the broadcast
@@ -337,8 +341,20 @@ impl Oracle for IinOracle {
                     && (self.unsol.is_some() || unsol_in_step)
                     && self.bcast == Some(0xFFFE)
                 {
-                    // a solicited confirm during an unsolicited wait may end a confirm-mandatory indication
-                    self.bcast_known = false;
+                    // a solicited confirm during an unsolicited wait ends a confirm-mandatory indication exactly when it confirms
+                    // a solicited response that carried the indication
+                    if self.in_unsol_wait && !unsol_in_step && s.bytes.len() == 2 {
+                        self.bump("probe.solicited_confirm_in_unsolicited_wait_judged");
+                        // (a confirmation confirms the most recent solicited response, not an earlier one that was superseded)
+                        let latest = self.bcast_reported_in.iter().rev().find(|e| !e.0).map(|e| e.1);
+                        if latest == Some(s.bytes[0] & 0x0F) {
+                            self.bcast = None;
+                            self.bcast_reported_in.clear();
+                        }
+                    } else {
+                        // (whether the outstation was in that wait when it read the confirm is not known)
+                        self.bcast_known = false;
+                    }
                 }
             } else if s.bytes.len() >= 2 && to_us && s.dest >= 0xFFFD {
                 // unusual header flags / foreign master on a broadcast: not modelled
@@ -462,9 +478,15 @@ impl Oracle for IinOracle {
                                 }
                             }
                             self.unsol = None;
+                            self.in_unsol_wait = false;
+                        } else if s.starts_with("enter_unsolicited_confirm_wait") {
+                            self.in_unsol_wait = true;
+                        } else if s.starts_with("unsolicited_confirm_timeout") && !s.ends_with("false") {
+                            self.in_unsol_wait = false;
                         } else if s.starts_with("unsolicited_confirm_timeout")
                             && s.ends_with("false")
                         {
+                            self.in_unsol_wait = false;
                             if self
                                 .unsol
                                 .as_ref()
